@@ -851,6 +851,11 @@ def c10_worlds(rng: random.Random) -> list[dict]:
         "routine_ids_out_of_order": "def 1 {\n    a();\n    end;\n}\ndef 0 {\n    b();\n    end;\n}\n",
         "routine_id_gap": "def 0 {\n    a();\n    end;\n}\ndef 2 {\n    b();\n    end;\n}\n",
         "routine_id_twice": "def 0 {\n    a();\n    end;\n}\ndef 0 {\n    b();\n    end;\n}\n",
+        "negative_routine_id": "def -1 {\n    a();\n    end;\n}\n",
+        "negative_routine_id_for_actor": "def -2 for actor ACTOR_X {\n    a();\n    end;\n}\n",
+        "huge_routine_id_gap": "def 0 {\n    a();\n    end;\n}\ndef 300 {\n    b();\n    end;\n}\n",
+        "ssbscript_negative_routine_id": "//?: is-ssb-script: true\ndef -1 {\n    a();\n}\n",
+        "ssbscript_routine_id_twice": "//?: is-ssb-script: true\ndef 0 {\n    a();\n}\ndef 0 {\n    b();\n}\n",
         "decimal_routine_target": "def 0 for actor 1.5 {\n    a();\n    end;\n}\n",
         "alias_as_first_routine": "def 0 {\n    alias previous;\n}\n",
         "macro_holding_only_a_label": "macro lbl() {\n    @l;\n}\ndef 0 {\n    ~lbl();\n    end;\n}\n",
@@ -866,8 +871,20 @@ def c10_worlds(rng: random.Random) -> list[dict]:
     W("ssbscript_jump_to_undefined_label", {M: MK + "def 0 {\n    a();\n    Jump(@nowhere);\n}\n"})
     W("ssbscript_inline_context", {M: MK + "def 0 {\n    a<actor 1>();\n    End();\n}\n"})
     W("ssbscript_valid", {M: MK + "def 0 {\n    @l;\n    a(1, 'x');\n    Jump(@l);\n}\n"}, expect="accept")
-    W("ssbscript_marker_in_imported_file", {M: 'import "./d1.exps";\n' + VALID_MAIN, "/proj/SCRIPT/d1.exps": MK + "def 0 {\n    a();\n    End();\n}\n"},
-      expect="answer")
+    # "routines in an imported file" whatever language the imported file is written in
+    W("ssbscript_marker_in_imported_file", {M: 'import "./d1.exps";\n' + VALID_MAIN, "/proj/SCRIPT/d1.exps": MK + "def 0 {\n    a();\n    End();\n}\n"})
+    W("ssbscript_marker_in_imported_file_depth_2", {M: 'import "./d1.exps";\n' + VALID_MAIN, "/proj/SCRIPT/d1.exps": 'import "./d2.exps";\n' + leaf,
+                                                    "/proj/SCRIPT/d2.exps": MK + "coro C {\n    a();\n    End();\n}\n"})
+    W("ssbscript_marker_in_empty_imported_file", {M: 'import "./d1.exps";\n' + VALID_MAIN, "/proj/SCRIPT/d1.exps": MK}, expect="answer")
+    # an offending body in a routine whose id is used again (the second definition must not hide the first)
+    for nm, body in INVALID_BODIES.items():
+        if nm in ("syntax_error",):
+            continue
+        extra = TWO_ARGS if nm == "too_few_macro_arguments" else (JUMPER_MACRO if nm == "jump_to_label_of_a_routine_from_macro_scope" else LABEL_MACROS if "_to_label_of_" in nm else "")
+        W(f"{nm}@routine_whose_id_is_defined_again", {M: extra + _wrap(body, "routine") + "def 0 {\n    second();\n    end;\n}\n"})
+    W("empty_import_path", {M: 'import "";\n' + VALID_MAIN})
+    W("empty_import_path_with_lookup_paths", {M: "import '';\n" + VALID_MAIN}, lookup=["/proj/macros"], expect="reject-or-oserror")
+    W("empty_import_path_after_a_valid_import", {M: 'import "./lib.exps";\nimport "";\n' + use, "/proj/SCRIPT/lib.exps": leaf})
     # recursive macros whose names also exist in an imported file (the import must not hide the cycle)
     lib_helper = "macro helper() {\n    lib_op();\n}\nmacro pong() {\n    lib_pong();\n}\n"
     W("macro_self_recursion_name_also_imported", {M: 'import "./lib.exps";\nmacro helper() {\n    main_op();\n    ~helper();\n}\ndef 0 {\n    ~helper();\n    end;\n}\n',
